@@ -265,7 +265,7 @@ PARTS = {
         mc={"quick": ["MC_Handler_init.cfg"], "thorough": ["MC_Handler_init.cfg", "MC_Handler_tiny.cfg", "MC_Handler_atkq.cfg"]},
         goals_cfg="MC_Handler_goal.cfg",
         goals=["GoalSecondWay", "GoalNoRecordHs", "GoalRekeyPending", ("GoalRekeyReleasesPending", "MC_Handler_goalenr.cfg"), "GoalEnrlessDone", "GoalTimeoutAll", "GoalPendingAfterExpiredChallenge", "GoalBadSigKeepsChallenge", "GoalBadThenGoodHs", "GoalWayAfterReplay", ("GoalSendAfterRotateBack", "MC_Handler_goalrot.cfg"),
-               ("GoalForgedHs", "MC_Handler_goalatk.cfg"), ("GoalReplayedHs", "MC_Handler_goalatk.cfg"), ("GoalForeignEnrAnswer", "MC_Handler_goalnoenr.cfg")],
+               ("GoalForgedHs", "MC_Handler_goalatk.cfg"), ("GoalReplayedHs", "MC_Handler_goalatk.cfg"), ("GoalForeignEnrAnswer", "MC_Handler_goalnoenr.cfg"), ("GoalLateEnrAnswer", "MC_Handler_goalnoenr.cfg")],
         sim={"quick": [dict(cfg="MC_Handler_sim.cfg", num=160, depth=40)], "thorough": [dict(cfg="MC_Handler_sim.cfg", num=1000, depth=60)]},
         append_ops=[{"k": "Quiesce"}],
         drive={"quick": 0, "thorough": 0},
@@ -309,7 +309,7 @@ PARTS = {
         trace="Trace_Lru.tla", mon_cfg="Trace_Lru_mon.cfg", strict_cfg="Trace_Lru_strict.cfg",
         formulas={"NoStale": "C15", "Bound": "C15", "EvictLru": "C15"},
         interesting=_lru_interesting,
-        assumptions=["virtual time by ageing stored instants (hook verif_age); one model tick = 1000 ms, ttl = n*1000+500 ms",
+        assumptions=["virtual time by ageing stored instants (hook verif_age); one model tick = 700 ms, ttl = n*700+350 ms (no whole number of seconds on purpose)",
                      "LruTimeCache<u32,u32> stands for LruTimeCache<NodeAddress,Session> (the type is generic; no key/value-specific code)"],
     ),
 }
